@@ -24,7 +24,8 @@ run_one() { # name property patchfile
   cp -r /repo/src /repo/README.md /repo/Cargo.toml "$work/repo/"
   if ! (cd "$work/repo" && patch -p1 -s < "$patch"); then echo "$name: PATCH DOES NOT APPLY"; echo "{\"name\":\"$name\",\"property\":\"$prop\",\"result\":\"patch-failed\"}" >> "$tmpres"; return; fi
   local props="$prop"
-  if [ "$prop" = "EQ" ]; then
+  case "$prop" in EQ:*) props="$(echo "${prop#EQ:}" | tr ',' ' ')"; prop="EQ";; esac
+  if [ "$prop" = "EQ" ] && [ "$props" = "EQ" ]; then
     case "$patch" in
       *) if grep -q "remapping_loop.rs" "$patch"; then props="C10 C11 C12 C19 C20"; else props="C01 C02 C03 C04 C05 C06 C07 C08 C09 C19"; fi ;;
     esac
@@ -36,7 +37,10 @@ run_one() { # name property patchfile
     if [ "$prop" = "EQ" ]; then
       if [ $rc -ne 0 ]; then verdict="FALSE-ALARM"; detail="$p rc=$rc $line"; break; else verdict="quiet"; fi
     else
-      if [ $rc -eq 1 ]; then verdict="detected"; detail="$line"; elif [ $rc -eq 0 ]; then verdict="MISSED"; else verdict="ERROR"; detail="$(echo "$out" | tail -3 | tr '\n' ' ')"; fi
+      if [ $rc -eq 1 ]; then verdict="detected"; detail="$line"
+        # keep the minimised failing case next to a seeded change, as documentation
+        case "$name" in seeded-*) rp="$(echo "$out" | grep -E '^VIOLATION' | sed -E 's/.*replay=//')"; [ -f "$rp" ] && cp "$rp" "$here/seeded/${name#seeded-}/found-replay.json" ;; esac
+      elif [ $rc -eq 0 ]; then verdict="MISSED"; else verdict="ERROR"; detail="$(echo "$out" | tail -3 | tr '\n' ' ')"; fi
     fi
   done
   echo "$name [$prop]: $verdict ${detail:0:200}"
@@ -54,6 +58,9 @@ import json,sys,os,glob
 here=sys.argv[1]
 for m in json.load(open(os.path.join(here,"mutants","index.json"))):
     print(m["name"], m["property"], os.path.join(here,"mutants",m["name"]+".diff"))
+for meta in sorted(glob.glob(os.path.join(here,"preserving","*","meta.json"))):
+    d=json.load(open(meta)); dirn=os.path.dirname(meta)
+    print("preserving-"+os.path.basename(dirn), "EQ:"+",".join(d["checks"]), os.path.join(dirn,"patch.diff"))
 for meta in sorted(glob.glob(os.path.join(here,"seeded","*","meta.json"))):
     d=json.load(open(meta)); dirn=os.path.dirname(meta)
     print("seeded-"+os.path.basename(dirn), d["property"], os.path.join(dirn,"patch.diff"))
@@ -72,7 +79,10 @@ if int(sys.argv[3])>0:
     try: old=json.load(open(path))
     except Exception: old=[]
 names={r["name"] for r in new}
-merged=[r for r in old if r["name"] not in names]+new
+import os,glob
+here=os.path.dirname(path)
+valid={m["name"] for m in json.load(open(os.path.join(here,"index.json")))}|{"seeded-"+os.path.basename(os.path.dirname(m)) for m in glob.glob(os.path.join(os.path.dirname(here),"seeded","*","meta.json"))}|{"preserving-"+os.path.basename(os.path.dirname(m)) for m in glob.glob(os.path.join(os.path.dirname(here),"preserving","*","meta.json"))}
+merged=[r for r in old if r["name"] not in names and r["name"] in valid]+new
 merged.sort(key=lambda r:r["name"])
 json.dump(merged,open(path,"w"),indent=1)
 bad=[r for r in new if r["result"] not in ("detected","quiet")]
